@@ -547,9 +547,21 @@ def _pipeline(ctx, keys):
                         continue
                     check('rendering', rname + ' (spaces in value)', msg,
                           want)
-        # other mask strings
-        for rname, msg, want in renderings('password', 'abc', '<hidden>'):
-            check('mask', rname, msg, want, secret='<hidden>')
+        # other mask strings, the empty one included
+        for mk in ('<hidden>', '', ' ', 'x'):
+            for rname, msg, want in renderings('password', 'abc', mk):
+                check('mask', rname, msg, want, secret=mk)
+        # a command line that is itself quoted: the closing quote follows
+        # the secret directly
+        for key in ('password', 'auth_token', 'secret'):
+            for msg, want in (
+                    ("cmd='mysqld --%s s3cret'", "cmd='mysqld --%s ***'"),
+                    ('["sh", "-c", "tool --%s s3cret"]',
+                     '["sh", "-c", "tool --%s ***"]'),
+                    ('run "tool --%s s3cret" now', 'run "tool --%s ***" now'),
+                    ("x --%s s3cret'", "x --%s ***'")):
+                check('rendering', '--key value inside a quoted command',
+                      msg % key, want % key)
         # two secrets for one key in different renderings
         for key in ('password', 'auth_token', 'secret'):
             rs = renderings(key, 'abc', mask)
